@@ -34,6 +34,15 @@ def answer (line : String) : String :=
     match bytesOfHex h with
     | some data => showLine (specLex data)
     | none => "bad-op"
+  | ["mode.after", h] =>
+    match bytesOfHex h with
+    | some data => (modeAfter data).pyName ++ (if Complete (modeAfter data) then " complete" else " open")
+    | none => "bad-op"
+  | ["spec.concat", ha, hw, hb] =>
+    match bytesOfHex ha, bytesOfHex hw, bytesOfHex hb with
+    | some a, some ws, some b =>
+      if Complete (modeAfter a) then showLine (concatLex a ws b) else "open"
+    | _, _, _ => "bad-op"
   | ["table", n] => (tableByName n).getD "bad-op"
   | _ => "bad-op"
 
